@@ -114,3 +114,27 @@ package s2
 //@   requires rc != nil && region != nil && (forall k int :: 0 <= k && k < len(region.CellUnionBound()) ==> vcValid(region.CellUnionBound()[k]))
 //@   noframe
 //@   ensures [levels] vcAllAllowed(result, vcClamp(rc.MinLevel, 0, 30), vcClamp(rc.LevelMod, 1, 3))
+
+// ---------------------------------------------------------------- the region predicates the coverer asks of a polygon: dispatch on the index relation
+
+//@ func (p *Polygon) boundaryApproxIntersects(it *ShapeIndexIterator, cell Cell) bool
+//@   assumed "clipped-edge test in uv space (floating point): value not decided"
+//@   requires p != nil && it != nil
+
+//@ func (p *Polygon) iteratorContainsPoint(it *ShapeIndexIterator, point Point) bool
+//@   assumed "index path of polygon containment (parity structure: property C04; through the Shape interface, not decided)"
+//@   requires p != nil && it != nil
+
+// A cell can only be reported as contained when it lies inside a single index cell (relation Indexed): a cell the index
+// subdivides has edges through it. An interior covering made of such cells would stick out of the polygon.
+//@ func (p *Polygon) ContainsCell(cell Cell) bool
+//@   requires p != nil && vcSI(p.index) && !vcHeld(&p.index.mu) && p.index.status == fresh && vcIdx(p.index) && vcValid(cell.id)
+//@   modifies p.index.cells, p.index.cellMap, p.index.pendingRemovals, p.index.pendingAdditionsPos, p.index.status
+//@   ensures [only-inside-one-index-cell] result ==> (exists k int :: 0 <= k && k < len(p.index.cells) && p.index.cells[k].Contains(cell.id))
+
+// ... and a cell disjoint from every index cell does not intersect the polygon, a cell the index subdivides does
+//@ func (p *Polygon) IntersectsCell(cell Cell) bool
+//@   requires p != nil && vcSI(p.index) && !vcHeld(&p.index.mu) && p.index.status == fresh && vcIdx(p.index) && vcValid(cell.id)
+//@   modifies p.index.cells, p.index.cellMap, p.index.pendingRemovals, p.index.pendingAdditionsPos, p.index.status
+//@   ensures [disjoint-from-index] (forall k int :: 0 <= k && k < len(p.index.cells) ==> !p.index.cells[k].Intersects(cell.id)) ==> !result
+//@   ensures [index-cell-itself] (exists k int :: 0 <= k && k < len(p.index.cells) && p.index.cells[k] == cell.id) ==> result
